@@ -26,11 +26,15 @@
 // 2. Execution model
 // ------------------------------------------------------------------------------------------------
 // All test threads are real threads but exactly one holds the baton.  EVERY shim operation is a
-// scheduling point: the thread publishes its pending operation and parks; the scheduler (the thread
-// that called run/explore) computes the enabled alternatives, asks the Chooser, applies the
+// scheduling point: the thread publishes its pending operation and then runs the scheduler itself
+// (decentralised: no scheduler thread, continuing the same thread costs no context switch; OS threads
+// are pooled across executions): it computes the enabled alternatives, asks the Chooser, applies the
 // operation's effect on the scheduler-owned state (mutex owner, cv wait set), logs the step and
-// passes the baton; the thread then runs (operation + the plain code behind it) up to its next
-// scheduling point or its end.  One trace Step = one operation:
+// passes the baton; the chosen thread then runs (operation + the plain code behind it) up to its
+// next scheduling point or its end.  Consequently Program::snapshot, RunOptions::on_step and the
+// Chooser are called on whichever thread holds the baton (serialised; shim operations inside these
+// callbacks pass through without scheduling: use vs_atomic::raw(), read plain members).
+// One trace Step = one operation:
 //     index  tid  op            obj   res
 //     op in: lock trylock unlock wait relock notify_one notify_all load store rmw spawn join
 //            yield quiesce spurious
@@ -52,6 +56,7 @@
 // prefix in Result.trace / Result.schedule(); such an execution is ABANDONED: its threads stay
 // parked for ever, the Execution and the Program state are leaked on purpose (nothing is unwound,
 // so it is safe for any code under test).  ExploreOptions::max_abandoned bounds the leak.
+// Cost (ASan+UBSan build, 5-7 threads, ~30 steps): about 1 ms per execution on a loaded machine.
 // The program must be deterministic given the choices (no time, no addresses, no real races).
 // Shim operations executed by a thread the scheduler does not control (e.g. the main thread while it
 // builds or destroys the Program state) pass through without scheduling; blocking there is an error.
